@@ -180,7 +180,7 @@ func c34run(c *runner.Ctx) runner.Result {
 			first = append(first, s)
 		}
 	}
-	maxFirst := 10
+	maxFirst := 6
 	if c.Thorough() {
 		maxFirst = 40
 	}
@@ -333,7 +333,7 @@ func init() {
 	register(&runner.Monitor{
 		ID:    "C34",
 		Level: "fault_enumeration",
-		Rule: "case = one write history (inline mode, with/without explicit checkpoints, continuation writes) recorded under strace; first-level crash states that still hold un-checkpointed transactions (quick: 10 per history, thorough: 40) are restarted for real under strace; every prefix of each recovery's file-mutating system calls is a second-level crash state, restarted again and then once more; oracles: the acknowledged history is returned (duplicates only as the listed defect predicts), no old WAL file remains, the recovering process never removes its own WAL, an old WAL is unlinked only after all primary writes of its un-checkpointed transactions and a sync, a further restart changes neither files nor results; distinct = tree content hash of the second-level state",
+		Rule: "case = one write history (inline mode, with/without explicit checkpoints, continuation writes) recorded under strace; first-level crash states that still hold un-checkpointed transactions (quick: 6 per history, thorough: 40) are restarted for real under strace; every prefix of each recovery's file-mutating system calls is a second-level crash state, restarted again and then once more; oracles: the acknowledged history is returned (duplicates only as the listed defect predicts), no old WAL file remains, the recovering process never removes its own WAL, an old WAL is unlinked only after all primary writes of its un-checkpointed transactions and a sync, a further restart changes neither files nor results; distinct = tree content hash of the second-level state",
 		Assumptions:  []string{crashAssumptions},
 		Cases:        crashCases(2, 20),
 		Batch:        1,
